@@ -138,3 +138,16 @@ def inflOf2 (fam : String) (nodes : List Node) (nbrs : Node → List Node) (st :
   if fam = "sei" then (if st u = St.R then nodes.filter fun v => (nbrs u).contains v else [])
   else inflOf fam nodes nbrs u
 end ComplexFam
+
+namespace ComplexFam
+/-- family "lazy": S → I → R with the usual rates, but the chooser moves a susceptible node only when at least `k`
+neighbours are infectious; otherwise it answers the node's *current* status (a null event: the clock advances, a row
+is reported, nothing changes).  Other families as `chooseOf`. -/
+def chooseOf2 (fam : String) (nbrs : Node → List Node) (k : Nat) (st : Node → St) (u : Node) : St :=
+  if fam = "lazy" then
+    match st u with
+    | St.S => if nInf nbrs st u ≥ k then St.I else St.S
+    | St.I => St.R
+    | St.R => St.R
+  else chooseOf fam st u
+end ComplexFam
